@@ -1,10 +1,10 @@
 (* C11 - match() and search() implement I-Regexp whole-string / substring matching.
    Three ties: (1) map_re - the only regex logic in this repository - is modelled (Model/MapRe.v) and compared with the
    code on every generated pattern; (2) which regex entry point each function calls and that no dialect flags are passed
-   is REGENERATED from match.py / search.py (Gen/Env.v); (3) the third-party engines (regex, iregexp_check) are NOT
+   is REGENERATED on every run by executing both functions under a recording proxy around the regex module (Gen/Rx.v, tools/pygen/rx_probe.py); (3) the third-party engines (regex, iregexp_check) are NOT
    modelled: they are validated on generated patterns against the I-Regexp semantics below, whose executable
    matcher is proved to decide the language definition.  Partial, stated as such. *)
-From JP Require Import Base.Json Model.Ast Model.Eval Model.MapRe Spec.IRegexp Gen.Env Proofs.TieEnv.
+From JP Require Import Base.Json Model.Ast Model.Eval Model.MapRe Spec.IRegexp Gen.Rx Proofs.TieRx.
 
 (* the oracle: for every category assignment, expression and string, the derivative matcher answers exactly
    "the string is in the language of the expression" *)
@@ -55,10 +55,12 @@ Theorem C11_dot_outside_class : forall rest, m_map_re (46%N :: rest) = dot_repla
 Proof. reflexivity. Qed.
 Print Assumptions C11_dot_outside_class.
 
-(* regenerated from match.py / search.py: fullmatch and search of the same module, with no flag argument *)
+(* regenerated from the current source: fullmatch and search of the regex module, with no flag argument, called exactly
+   once per evaluation with (map_re(pattern), string) *)
 Theorem C11_no_dialect_flags : g_match_flags = 0%nat /\ g_search_flags = 0%nat /\
-  g_match_entry = [102; 117; 108; 108; 109; 97; 116; 99; 104]%N /\ g_search_entry = [115; 101; 97; 114; 99; 104]%N.
-Proof. repeat split; reflexivity. Qed.
+  g_match_entry = [102; 117; 108; 108; 109; 97; 116; 99; 104]%N /\ g_search_entry = [115; 101; 97; 114; 99; 104]%N /\
+  g_match_maps = true /\ g_search_maps = true.
+Proof. exact rx_calls_regenerated. Qed.
 Print Assumptions C11_no_dialect_flags.
 
 (* neither function ever raises in the model, whatever it is given; non-strings give false *)
